@@ -70,11 +70,35 @@ def generate(streams: Streams, tier: str, index: int) -> dict:
                         "path": rng.randrange(n_paths), "info": rng.random() < 0.2})
     ops.append({"op": "read", "path": ops[-1]["path"] if ops[-1]["op"] == "write" else 0,
                 "as": "stored"})
+    # live histories: objects are built once and stay alive for the whole history; edit
+    # operations (linking data, inherited list operations, appends, member mutation) are
+    # interleaved with the writes, so that a write sees an object with a past
+    live = index % 12 != 0 and rng.random() < 0.5
+    if live:
+        erng = streams["edits"]
+        new_ops = []
+        for o in ops:
+            if o["op"] == "write":
+                for _ in range(erng.choice([0, 1, 1, 2, 3, 4])):
+                    new_ops.append(_gen_edit(erng, o["obj"]))
+            new_ops.append(o)
+        ops = new_ops
     # every 12th history gets the full fault enumeration; the others run fault-free only, which
     # is ~100x cheaper and widens the coverage of the object space (classes, dimensions, mode
     # counts, special values, collection shapes)
     return {"objects": objects, "n_paths": n_paths, "ops": ops, "enumerate": index % 12 == 0,
-            "fault": None, "max_faults": 120 if tier == "quick" else 900}
+            "fault": None, "max_faults": 120 if tier == "quick" else 900, "live": live}
+
+
+EDIT_KINDS = ["link", "link", "data", "reverse", "sort", "setitem", "delitem", "pop", "insert",
+              "append", "extend", "mutate", "mutate", "linked_write", "remove_small", "clear",
+              "member_link", "member_reverse", "copy_roundtrip"]
+
+
+def _gen_edit(rng, obj: int) -> dict:
+    return {"op": "edit", "obj": obj, "e": rng.choice(EDIT_KINDS), "i": rng.randrange(64),
+            "j": rng.randrange(64), "x": rng.choice([0.5, 2.0, 1.25, 3.0]),
+            "t": rng.choice([None, None, 0, 1.5, -2, 7])}
 
 
 # --------------------------------------------------------------------------- model helpers
@@ -92,6 +116,125 @@ def homogeneous(spec: dict) -> bool:
     if t == "track":
         return homo(spec["droplets"])
     return all(homo(tr["droplets"]) for tr in spec["tracks"])
+
+
+def homogeneous_obj(obj) -> bool:
+    import droplets as dr
+
+    def homo(ds):
+        return len({(type(d).__name__, d.dim, len(getattr(d, "amplitudes", ())))
+                    for d in ds}) <= 1
+
+    if isinstance(obj, dr.Emulsion):
+        return homo(obj)
+    if isinstance(obj, dr.EmulsionTimeCourse):
+        return all(homo(e) for e in obj.emulsions)
+    if isinstance(obj, dr.DropletTrackList):
+        return all(homo(t.droplets) for t in obj)
+    return homo(obj.droplets)
+
+
+def _edit_emulsion(em, op) -> str:
+    """One edit of a live Emulsion (a list subclass) through its public / inherited interface."""
+    e, n = op["e"], len(em)
+    i, j, x = op["i"], op["j"], op["x"]
+    if e == "link":
+        em.get_linked_data()
+    elif e == "data":
+        em.data  # noqa: B018  (property access; may build caches)
+    elif e == "reverse":
+        em.reverse()
+    elif e == "sort":
+        em.sort(key=lambda d: (float(d.radius), tuple(float(v) for v in d.position)))
+    elif e == "clear":
+        em.clear()
+    elif e == "remove_small":
+        em.remove_small(x / 2)
+    elif n == 0:
+        return "skipped"
+    elif e == "setitem":
+        em[i % n] = em[j % n].copy()
+    elif e == "delitem":
+        del em[i % n]
+    elif e == "pop":
+        em.pop()
+    elif e == "insert":
+        em.insert(i % (n + 1), em[j % n].copy())
+    elif e == "append":
+        em.append(em[j % n])
+    elif e == "extend":
+        em.extend([em[j % n], em[i % n]])
+    elif e == "mutate":
+        d = em[i % n]
+        d.radius = float(d.radius) * x
+        pos = d.position.copy()
+        pos[-1] += 0.25  # along the last axis only: axisymmetric droplets must stay on the z-axis
+        d.position = pos
+    elif e == "linked_write":
+        arr = em.get_linked_data()
+        arr["radius"][i % n] = float(arr["radius"][i % n]) * x + 0.5
+    else:
+        return "skipped"
+    return "done"
+
+
+def apply_edit(obj, op) -> str:
+    import droplets as dr
+
+    e, i, j, x = op["e"], op["i"], op["j"], op["x"]
+    if e == "copy_roundtrip":
+        return "skipped"
+    if isinstance(obj, dr.Emulsion):
+        if e.startswith("member_"):
+            return "skipped"
+        return _edit_emulsion(obj, op)
+    if isinstance(obj, dr.EmulsionTimeCourse):
+        n = len(obj)
+        if e == "clear":
+            obj.clear()
+            return "done"
+        if n == 0:
+            return "skipped"
+        if e in ("append", "insert", "extend"):
+            t = op.get("t")
+            obj.append(obj.emulsions[j % n], time=None if t is None else obj.times[-1] + abs(t) + 1)
+            return "done"
+        # edit one frame in place (integer access hands out the stored emulsion)
+        sub = {"member_link": "link", "member_reverse": "reverse"}.get(e, e)
+        return _edit_emulsion(obj.emulsions[i % n], {**op, "e": sub, "i": j, "j": i})
+    if isinstance(obj, dr.DropletTrackList):
+        n = len(obj)
+        if e == "reverse":
+            obj.reverse()
+        elif e == "clear":
+            obj.clear()
+        elif e == "remove_small":
+            obj.remove_short_tracks(x)
+        elif n == 0:
+            return "skipped"
+        elif e in ("delitem", "pop"):
+            del obj[i % n]
+        elif e in ("append", "insert", "extend"):
+            obj.append(obj[j % n][:])
+        elif e == "setitem":
+            obj[i % n] = obj[j % n][:]
+        else:
+            return apply_edit(obj[i % n], {**op, "e": "mutate" if e == "member_link" else e})
+        return "done"
+    # a single track
+    n = len(obj)
+    if n == 0:
+        return "skipped"
+    if e in ("append", "insert", "extend"):
+        obj.append(obj.droplets[j % n], time=obj.times[-1] + abs(op.get("t") or 1) + 0.5)
+    elif e in ("mutate", "linked_write"):
+        d = obj.droplets[i % n]
+        d.radius = float(d.radius) * x
+    elif e == "data":
+        obj.data  # noqa: B018
+    else:
+        return "skipped"
+    return "done"
 
 
 def _path(j: int):
@@ -120,6 +263,15 @@ class _Run:
         self.case, self.fs, self.model, self.log, self.cnt = case, fs, model, log, cnt
         self.violations: list[Violation] = []
         self.io_counts: list[tuple[int, int]] = []
+        self.live: dict[int, object] = {}
+
+    def _object(self, k: int):
+        spec = self.case["objects"][k]
+        if not self.case.get("live"):
+            return gen.build(spec)
+        if k not in self.live:
+            self.live[k] = gen.build(spec)
+        return self.live[k]
 
     def step(self, i: int, op: dict, fault: dict | None) -> None:
         fs, model = self.fs, self.model
@@ -128,12 +280,26 @@ class _Run:
             plan = simfs.FaultPlan(fault["kind"], fault["k"], fault.get("torn_num", 1),
                                    fault.get("torn_den", 2))
             fs.arm(plan)
-        path = _path(op["path"] % self.case["n_paths"])
+        path = None if op["op"] == "edit" else _path(op["path"] % self.case["n_paths"])
         w0, r0 = fs.total_writes, fs.total_reads
+        if op["op"] == "edit":
+            k = op["obj"] % len(self.case["objects"])
+            obj = self._object(k)
+            try:
+                res = apply_edit(obj, op)
+            except Exception as exc:  # an edit that fails is not C08's business (see C20)
+                res = "raised:" + type(exc).__name__
+            self.log.add("edit", op=i, obj=k, e=op["e"], res=res)
+            self.cnt.inc("edits_" + res.split(":")[0])
+            self.cnt.inc("probe.edit." + op["e"], res == "done")
+            self.io_counts.append((0, 0))
+            return
         if op["op"] == "write":
-            spec = self.case["objects"][op["obj"] % len(self.case["objects"])]
-            obj = gen.build(spec)
+            k = op["obj"] % len(self.case["objects"])
+            spec = self.case["objects"][k]
+            obj = self._object(k)
             fp = gen.fingerprint(obj)
+            is_homogeneous = homogeneous_obj(obj) if self.case.get("live") else homogeneous(spec)
             try:
                 _write(obj, path, op.get("info"))
             except Exception as exc:
@@ -142,7 +308,7 @@ class _Run:
                 fired = plan is not None and plan.fired
                 self.log.add("write_raised", op=i, path=str(path), exc=err.exc_type, fault=bool(fired))
                 self.cnt.inc("writes_raised_under_fault" if fired else "writes_raised_clean")
-                if not fired and homogeneous(spec):
+                if not fired and is_homogeneous:
                     self.violations.append(Violation(
                         "C08.O1", f"to_file raised {err.text} for a homogeneous {spec['t']} "
                         f"without any injected fault",
@@ -249,7 +415,7 @@ def execute(case: dict) -> Outcome:
     cnt = Counter()
     violations: list[Violation] = []
     ops = case["ops"]
-    kinds_seq = [o["op"][0] for o in ops]
+    kinds_seq = [o["op"][0] if o["op"] != "edit" else "e:" + o["e"] for o in ops]
     narrowed = None
     inter = []
     evaluations = 0
